@@ -37,6 +37,10 @@ CHECKS = {
             "DESIGN.md 3/C07",
             "Generated histories (cycles of Write(n) / Write(empty) / Flush partitioning a generated input) for LZMAWriter, LZMA2Writer, XZWriter, LZIPWriter, the eight BCJWriters and DeltaWriter, and generated destination-size sequences (incl. 0 and 1) for every reader and filter reader. Oracles: the stream decodes to the concatenation of the slices; filter writers emit exactly the single-write bytes; reader output is independent of the size sequence; a zero-length read returns Ok(0) and disturbs nothing.",
             "MT writers' partition independence is checked under the deterministic scheduler in C08/C13; the BCJWriter multi-write finding is recorded and excluded by signature."),
+    "C11": ("exploration", "property-based testing: round-trip plus differential against liblzma's filters; BCJ2 against a reference encoder written for the harness",
+            "DESIGN.md 3/C11 and appendix B",
+            "Generated byte strings (opcode-dense synthetic code per architecture, slices of real executables, random, lengths around 4096*k and tiny) x aligned start offsets incl. near 2^31/2^32 x delta distances: reader(writer(x)) == x, writer(x) == liblzma's filter output, reader(y) == liblzma's inverse filter output on arbitrary y. BCJ2Reader must reconstruct x from the four streams of the harness's reference encoder for generated convert decisions, stream chunkings and read sizes.",
+            "liblzma filters are the reference; the BCJ2 reference encoder is harness code validated per case by a second naive decoder."),
 }
 
 NOT_YET = {
